@@ -111,32 +111,61 @@ def rule_b(prog, rep):
     summaries = {}
     for f in crate.top_fns():
         if f.path.startswith('config::Config::'):
-            tr = Tracer(crate, classify)
+            tr = Tracer(crate, classify, cond_events=('follower', 'leader'))
             summaries[short(f.path)] = tr.run_fn(f)
 
-    def expand(t, depth=0):
-        out = []
+    def expand_all(t, depth=0):
+        """all event sequences of a trace, with the calls of Config methods replaced by each of the callee's own sequences"""
+        seqs = [[]]
         for ev in t:
             b_ = base(ev)
+            if '@' in b_:
+                continue
             if b_.startswith('call:') and depth < 3:
                 sub = summaries.get(b_[5:], set())
-                # take the longest path of the callee as its effect sequence (all paths agree on the order of these events)
-                best = max((tt for (_, tt, _) in sub), key=len, default=())
-                out += expand([x for x in best if '@' not in x], depth + 1)
-            elif '@' not in b_:
-                out.append(b_)
-        return out
+                subseqs = set()
+                for (ex_, tt, v_) in sub:
+                    if v_ == 'err':
+                        continue
+                    for q in expand_all(tt, depth + 1):
+                        subseqs.add(tuple(q))
+                subseqs = subseqs or {()}
+                seqs = [a + list(q) for a in seqs for q in subseqs]
+                if len(seqs) > 4000:
+                    raise TooComplex('Config::new: too many configuration paths')
+            else:
+                seqs = [a + [b_] for a in seqs]
+        return seqs
     new = crate.fn('config::Config::new')
     bad = None
+    overridden = None
     cnt = 0
     for (ex, t, v) in ok_exits(summaries['new']):
-        seq = expand(t)
-        if 'role=' not in seq:
-            continue
-        cnt += 1
-        last = max(i for i, x in enumerate(seq) if x == 'role=')
-        if 'derive' not in seq[last + 1:]:
-            bad = seq
+        for seq in expand_all(t):
+            if 'role=' not in seq:
+                continue
+            cnt += 1
+            last = max(i for i, x in enumerate(seq) if x == 'role=')
+            rest = seq[last + 1:]
+            gpos = [i for i, x in enumerate(rest) if x.startswith('?follower=')]
+            if not gpos:
+                bad = seq          # the guard `follower || leader` is never evaluated once the roles are known
+                continue
+            # callee paths are combined freely: drop combinations that read one role with two different values
+            if len({x for x in rest if x.startswith('?follower=')}) > 1 or len({x for x in rest if x.startswith('?leader=')}) > 1:
+                continue
+            g = gpos[0]
+            after = rest[g:]
+            role_set = '?follower=1' in rest or '?leader=1' in rest
+            if role_set and 'derive' not in after:
+                bad = seq
+            elif role_set and 'persist=' in after[after.index('derive'):]:
+                overridden = seq
+    if overridden is not None and bad is None:
+        rep.violation('C12.b', 'Config::new', new.loc, f'after `follower || leader => use_persistence` was applied, use_persistence is '
+                      f'assigned again from another source: {overridden}: a role no longer implies persistence (e.g. an explicit '
+                      f'USE_PERSISTENCE=false in the environment wins over --follower)', key='C12.b/Config::new/derivation-overridden',
+                      expected='nothing overrides use_persistence after the role derivation')
     if bad is not None:
         rep.violation('C12.b', 'Config::new', new.loc, f'roles are written after the last evaluation of `follower || leader => '
                       f'use_persistence`: {bad}: --leader / --follower do not imply persistence', key='C12.b/Config::new/derive-before-roles',
